@@ -507,6 +507,22 @@ func (x *Exec) branch(st *State, fr *Frame, b *ssa.BasicBlock, cond *Term, lc *l
 		x.execBlock(st, fr, b.Succs[1], b, lc, k)
 		return
 	}
+	// a loop that is being unrolled for want of a contract must decide its own exit: if leaving or staying depends on the
+	// input, no bounded unrolling completes it - it needs an invariant (said at once, instead of exploring 2^64 paths)
+	for c := lc; c != nil; c = c.parent {
+		if !c.unroll || c.fr.ID != fr.ID {
+			continue
+		}
+		body := x.W.Loops(fr.Fn.(*ssa.Function)).Body[c.header]
+		if body[b] && (!body[b.Succs[0]] || !body[b.Succs[1]]) {
+			if x.quiet == 0 {
+				x.fail(fmt.Sprintf("%s has no invariant and the number of its iterations depends on the input", c.name))
+			}
+			x.returns++
+			return
+		}
+		break
+	}
 	x.paths++
 	if x.paths > x.maxPath {
 		panic(unsupported(fmt.Sprintf("more than %d paths", x.maxPath)))
